@@ -24,8 +24,8 @@ import (
 // unsubscribes. A lost removal notice makes a reorged-out commit the recorded L1 head.
 
 type fakeGethSub struct {
-	err  chan error
-	once sync.Once
+	err   chan error
+	once  sync.Once
 	unsub chan struct{}
 }
 
